@@ -6,7 +6,8 @@
 From Coq Require Import List NArith.
 From RaftLog Require Import Base.Bytes Model.Types Model.Cache Model.Core Model.Recover Model.Run.
 From RaftLog Require Import Spec.Spec Spec.Hist.
-From RaftLog Require Import Proofs.JournalFacts Proofs.ReadInv Proofs.ReadFacts.
+From RaftLog Require Import Model.Sys Proofs.JournalFacts Proofs.ReadInv Proofs.ReadFacts.
+From RaftLog Require Proofs.PurgeFacts Proofs.PurgeLive Proofs.ReadSys Proofs.ReadSysFaults.
 Import ListNotations.
 
 (* Finding F2: a Raft-legal history (append three entries at term 5, flush, worker idle,
@@ -43,5 +44,23 @@ Theorem C07_boundary_in_force_is_not_enough : exists cfg ops res fin,
   ~ (exists y, fin = Some y /\ observes y (spec_ops spec0 ops)).
 Proof. exact ReadFacts.C07_reads_total_outside_known_refuted. Qed.
 
+(* The same on the L2 system: EVERY interleaving of caller calls with worker steps at
+   system-call granularity (data still buffered, queued, in flight, written, synced,
+   evicted), any batching, failing writes/syncs/unlinks and worker death. Between API
+   calls, for a Raft-legal history of well-formed writes in which every append was above
+   all boundaries (in force, pending in the worker's files/batch/queue, or lost with a dead
+   worker; checked along the run by [zrun_ok_c07f]): the reported state, every range read
+   and the snapshot iteration are exactly the reference log's. *)
+Theorem C07_reads_total_outside_known_L2 : forall cfg es z v,
+  zrun (PurgeFacts.z0_of cfg) es = Some (z, v) ->
+  ReadSysFaults.zrun_ok_c07f (PurgeFacts.z0_of cfg) [] es = true ->
+  PurgeLive.hist_legal z -> Forall wop_wf (PurgeLive.hist z) -> z_todo z = [] ->
+  let sp := PurgeLive.spec_wops spec0 (PurgeLive.hist z) in
+  m_rs (k_sm (z_core z)) = spec_state sp /\
+  (forall from to, read_ok (snd (do_read (z_core z) (z_disk z) from to)) (spec_read sp from to)) /\
+  read_ok (do_dump_iter (z_core z) (z_disk z)) (sp_entries sp).
+Proof. exact ReadSysFaults.C07_reads_total_outside_known_L2_faults. Qed.
+
+Print Assumptions C07_reads_total_outside_known_L2.
 Print Assumptions C07_refuted_live.
 Print Assumptions C07_reads_total_outside_known.
